@@ -19,7 +19,7 @@ ASSUMPTIONS = [
     "sampling with select_best happens inside the policy call (covered by C12's tap); here its returned reward is checked against the returned actions",
 ]
 REQUIRED_COUNTERS = ["c15_augment_calls", "c15_copies_checked", "c15_eval_calls", "c15_eval_rows", "c15_candidates"]
-MIN_NONTRIVIAL = {"quick": 1500, "thorough": 20000}
+MIN_NONTRIVIAL = {"quick": 1500, "thorough": 6000}
 WORKERS = {"quick": 14, "thorough": 16}
 BUDGET_S = {"quick": 500, "thorough": 3000}
 
